@@ -628,7 +628,7 @@ MANIFEST = dict(
         "the first eos. Necessary conditions of C12; the iff of acceptance over all directories is not decided."),
     level_note="Trusted: python ast; torch.save persists the tensor passed. F6 (_load_ref on empty transcripts) and "
                "F7 (--fix 0) were found by these rules and repaired by fix: commits.",
-    technique="static analysis: typestate over enumerated CFG paths, guard dominance, comparison normal forms, reaching definitions",
+    technique="static analysis: typestate over enumerated CFG paths, guard dominance, comparison normal forms, reaching definitions, decision tables by abstract interpretation (per-token boundary block, fix normalisation, sos/eos insertion, CLI validate flag)",
     design_ref="DESIGN.md section 4 C12",
 )
 
